@@ -347,7 +347,7 @@ def run(ctx):
             pb = fs.params[1]["b"]
             okg = PE(F, fs, {pb: 1}).reach(c) is True and PE(F, fs, {pb: 250}).reach(c) is True and \
                 PE(F, fs, {pb: 0}).reach(c) is False and PE(F, fs, {pb: -5}).reach(c) is False
-            dur = peel(c["a"][0], NO_T)
+            dur = hirq.resolve(fs, c["a"][0], NO_T)
             okd = dur.get("k") == "call" and (dur.get("p") or "").endswith("::milliseconds") and param_index(fs, dur["a"][0]) == 1
             okc = param_index(fs, c["a"][1]) == 2
             ctx.ob("R16.4", site_key(fs, "schedule_with_delay(milliseconds(delay_ms), cb) iff delay_ms > 0"), okg and okd and okc, line_of(c),
